@@ -140,6 +140,10 @@ func (u *Unmarshaler) fillSlice(fieldType reflect.Type, value reflect.Value,
 		return errValueNotSettable
 	}
 
+	if mapValue == nil {
+		return newTypeMismatchErrorWithHint(fullName, reflect.Slice.String(), "nil")
+	}
+
 	refValue := reflect.ValueOf(mapValue)
 	if refValue.Kind() != reflect.Slice {
 		return newTypeMismatchErrorWithHint(fullName, reflect.Slice.String(), refValue.Type().String())
